@@ -451,6 +451,29 @@ type execCtx struct {
 	sb   *sandbox
 	o    *pt.Obs
 	hist []string
+	// ids handed out by the server in this case: a name may refer to them as {DASHID} / {FOLDERID}
+	// (dashboards and folders can only be addressed by server-generated ids)
+	dashID, folderID string
+}
+
+func (x *execCtx) learnIDs(st step, res *httpResult) {
+	if res.Status != 200 {
+		return
+	}
+	switch st.Op {
+	case "dash_create":
+		var m map[string]string
+		if json.Unmarshal(res.Body, &m) == nil && len(m) == 1 {
+			for id := range m {
+				x.dashID = id
+			}
+		}
+	case "folder_create":
+		var m map[string]string
+		if json.Unmarshal(res.Body, &m) == nil && m["id"] != "" {
+			x.folderID = m["id"]
+		}
+	}
 }
 
 func short(s string, n int) string {
@@ -523,6 +546,7 @@ func (x *execCtx) runStep(i int, st step, name string) (bodies [][]byte, reached
 		if res.Panic != "" {
 			x.o.Class("handler_panic:" + st.Op)
 		}
+		x.learnIDs(st, &res)
 		x.hist = append(x.hist, fmt.Sprintf("    -> %s %s => status=%d routed=%v body=%s", r.Method, short(strconv.QuoteToASCII(r.Path), 200), res.Status,
 			res.Routed >= 0, short(strconv.QuoteToASCII(string(res.Body)), 200)))
 		bodies = append(bodies, res.Body)
@@ -579,6 +603,7 @@ func checkC19(cs *c19Case, o *pt.Obs) error {
 		nontrivial := false
 		for i, st := range steps {
 			name := st.Name.value(sb.Root)
+			name = strings.ReplaceAll(strings.ReplaceAll(name, "{DASHID}", x.dashID), "{FOLDERID}", x.folderID)
 			spec := opByName[st.Op]
 			o.Class("op:" + st.Op)
 			if spec.Carrier != "none" {
@@ -650,5 +675,3 @@ func checkC19(cs *c19Case, o *pt.Obs) error {
 
 func TestC19(t *testing.T) { pt.RunProp(t, "C19", genC19, checkC19) }
 
-// keep the JSON shape of a case stable (replay files)
-var _ = json.Marshal
